@@ -365,6 +365,16 @@ SendToSubscriber:
 			return
 		}
 
+		// Close raises the closing signal before it takes the sending lock: a sender that was queued
+		// behind a message which is still unsettled must not deliver once the subscription is closing
+		// (in the select below the closing case competes with the send at random).
+		select {
+		case <-s.closing:
+			s.logger.Trace("Closing, message discarded", logFields)
+			return
+		default:
+		}
+
 		select {
 		case s.outputChannel <- msgToSend:
 			s.logger.Trace("Sent message to subscriber", logFields)
